@@ -3499,6 +3499,11 @@ func (data *Data) RecoverDataBase(db string, metaData *Data, nodeMap map[uint64]
 		nodeID := pt.Owner.NodeID
 		pt.Owner.NodeID = nodeMap[nodeID]
 	}
+	// Databases: looked up before anything is installed, a rejected command leaves the catalogue as it was
+	database, ok := metaData.Databases[db]
+	if !ok {
+		return fmt.Errorf("database not found,database: %s", db)
+	}
 	data.PtView[db] = dbPT
 
 	// ReplicaGroups
@@ -3509,11 +3514,6 @@ func (data *Data) RecoverDataBase(db string, metaData *Data, nodeMap map[uint64]
 		}
 	}
 
-	// Databases
-	database, ok := metaData.Databases[db]
-	if !ok {
-		return fmt.Errorf("database not found,database: %s", db)
-	}
 	for _, rp := range database.RetentionPolicies {
 		for _, mst := range rp.Measurements {
 			mst.originName = influx.GetOriginMstName(mst.Name)
